@@ -44,15 +44,20 @@ fn empty_hir_interface() -> crate::hir::PackageInterface {
 }
 
 fn any_unit(ideps: BTreeMap<String, String>, cdeps: BTreeMap<String, String>) -> CoreUnit {
-    let interface = InterfaceUnit {
+    let mut interface = InterfaceUnit {
         format_version: kani::any(),
         compiler_abi: kani::any(),
         package: ab(),
         exports: empty_exports(),
         hir_interface: empty_hir_interface(),
         deps: ideps,
-        interface_hash: if kani::any() { String::from("H") } else { String::from("X") },
+        interface_hash: String::from("X"),
     };
+    // the "right hash" case takes the value from compute_hash() itself ("H" under the stub, the real SHA-256 in a native
+    // replay), so that a counterexample that needs a valid hash reproduces natively
+    if kani::any() {
+        interface.interface_hash = interface.compute_hash();
+    }
     CoreUnit {
         format_version: kani::any(),
         compiler_abi: kani::any(),
